@@ -65,6 +65,24 @@ pub trait Node: Buf {
     fn info(&self, out: &mut String);
     /// set the limit of the Take node at `path` (sequence of child indices)
     fn set_limit(&mut self, path: &[u64], v: usize) -> bool;
+    /// the child with index i, reached through the adapter's public accessor (get_mut / first_mut /
+    /// last_mut); leaves have none
+    fn child(&mut self, _i: u64) -> Option<&mut dyn Node> {
+        None
+    }
+    /// advance the node at `path` directly, behind the back of the adapters above it
+    fn advance_at(&mut self, path: &[u64], n: usize) -> bool {
+        match path.first() {
+            None => {
+                Buf::advance(self, n);
+                true
+            }
+            Some(&i) => match self.child(i) {
+                Some(c) => c.advance_at(&path[1..], n),
+                None => false,
+            },
+        }
+    }
 }
 
 // ---------------------------------------------------------------------------- leaves
@@ -197,6 +215,9 @@ impl Node for Chunked {
 
 // ---------------------------------------------------------------------------- adapters
 impl Node for Take<Box<dyn Node>> {
+    fn child(&mut self, _i: u64) -> Option<&mut dyn Node> {
+        Some(&mut **self.get_mut())
+    }
     fn info(&self, out: &mut String) {
         let _ = write!(out, "{{\"k\":\"take\",\"limit\":{},\"t\":", enc(self.limit()));
         self.get_ref().info(out);
@@ -212,6 +233,9 @@ impl Node for Take<Box<dyn Node>> {
     }
 }
 impl Node for Chain<Box<dyn Node>, Box<dyn Node>> {
+    fn child(&mut self, i: u64) -> Option<&mut dyn Node> {
+        Some(if i == 0 { &mut **self.first_mut() } else { &mut **self.last_mut() })
+    }
     fn info(&self, out: &mut String) {
         out.push_str("{\"k\":\"chain\",\"limit\":0,\"a\":");
         self.first_ref().info(out);
@@ -228,6 +252,12 @@ impl Node for Chain<Box<dyn Node>, Box<dyn Node>> {
     }
 }
 impl Node for Box<dyn Node> {
+    fn child(&mut self, i: u64) -> Option<&mut dyn Node> {
+        (**self).child(i)
+    }
+    fn advance_at(&mut self, path: &[u64], n: usize) -> bool {
+        (**self).advance_at(path, n)
+    }
     fn info(&self, out: &mut String) {
         (**self).info(out)
     }
@@ -292,6 +322,9 @@ impl Buf for RefNode {
     ref_getters!();
 }
 impl Node for RefNode {
+    fn child(&mut self, _i: u64) -> Option<&mut dyn Node> {
+        Some(self.r())
+    }
     fn info(&self, out: &mut String) {
         out.push_str("{\"k\":\"ref\",\"limit\":0,\"t\":");
         self.r().info(out);
@@ -306,6 +339,9 @@ impl Node for RefNode {
 pub struct BoxNode(Box<Box<dyn Node>>);
 forward_buf!(BoxNode, |s| &s.0, |m| &mut m.0);
 impl Node for BoxNode {
+    fn child(&mut self, _i: u64) -> Option<&mut dyn Node> {
+        Some(&mut **self.0)
+    }
     fn info(&self, out: &mut String) {
         out.push_str("{\"k\":\"box\",\"limit\":0,\"t\":");
         self.0.info(out);
@@ -458,6 +494,10 @@ fn run_buf_program(p: &Value, out: &mut String) {
                 "set_limit" => {
                     let path: Vec<u64> = o["path"].as_array().map(|a| a.iter().filter_map(|x| x.as_u64()).collect()).unwrap_or_default();
                     res.flag = b.set_limit(&path, n);
+                }
+                "advance_at" => {
+                    let path: Vec<u64> = o["path"].as_array().map(|a| a.iter().filter_map(|x| x.as_u64()).collect()).unwrap_or_default();
+                    res.flag = b.advance_at(&path, n);
                 }
                 "read" => {
                     let avail = Buf::remaining(&**root.as_ref().unwrap());
